@@ -49,9 +49,13 @@ with net.installed():
                 op(o)
             except AttributeError:
                 pass
-        same = (far.n, far.asked) == (twin.n, twin.asked)
+        # rpyc's own identity / policy probes (`____id_pack__`, `__name__`, `____conn__`, `exposed_<name>`) are lookups of
+        # OTHER names; what is compared is how often the requested attribute itself was evaluated
+        want = label.split("'")[1] if "'" in label else label.split(".")[1]
+        got_far, got_twin = far.asked.count(want), twin.asked.count(want)
+        same = (far.n, got_far) == (twin.n, got_twin)
         ok = ok and same
-        print("%-28s target: n=%d __getattr__ calls=%r   direct: n=%d __getattr__ calls=%r   %s"
-              % (label, far.n, far.asked, twin.n, twin.asked, "" if same else "<-- differs"))
+        print("%-28s through the proxy: property ran %d x, __getattr__(%r) %d x   directly: %d x, %d x   %s"
+              % (label, far.n, want, got_far, twin.n, got_twin, "" if same else "<-- differs"))
     ca.close(); net.shutdown()
 print("PASS" if ok else "FAIL"); sys.exit(0 if ok else 1)
